@@ -407,7 +407,7 @@ def _synth_bph(recipe, rng):
     for a in t.atoms:
         at.setdefault(a.name, np.array([a.x, a.y, a.z]))
     cen = np.mean([at[n] for n in K["base_atoms"][letter] if n in at], axis=0)
-    names = ["OP1", "OP2"] if kind == "p" else ["O2'", "O4'"]
+    names = ["OP1", "OP2", "O5'", "O3'"] if kind == "p" else ["O2'", "O4'"]
     auth = ResidueAuth("Z", 900, None, "U")
     atoms = []
     for k, d in enumerate(donors):
@@ -437,10 +437,14 @@ def synth_bph_recipes(per_subset):
     out = []
     for letter in K["letters"]:
         ds = sorted(K["bph_rule"][letter])
-        subsets = [c for n in (1, 2) for c in itertools.combinations(ds, n)]
+        # one, two and (phosphate only: four oxygens) three donors of one base in contact with one nucleotide:
+        # the per-pair class list then holds up to three raw classes before merging / cleaning
+        subsets = [c for n in (1, 2, 3) for c in itertools.combinations(ds, n)]
         for sub in subsets:
             for kind in ("p", "r"):
-                for k in range(per_subset * (4 if len(sub) == 2 else 1)):
+                if len(sub) == 3 and kind == "r":
+                    continue
+                for k in range(per_subset * (4 if len(sub) >= 2 else 1)):
                     out.append({"file": TEMPLATES[letter], "variant": "synthbph",
                                 "param": f"{letter}:{'+'.join(sub)}:{kind}", "seed": k})
     for r in out:
